@@ -74,9 +74,12 @@ PROPS = {
         "level": "other",
         "level_text": "Mixed. Proved (contracts on the real functions): insertion never overwrites the key index -- a later Entry/String whose key is indexed comes back as a fresh DuplicateBlockKeyBlock exposing the key, the FIRST (live) block and the complete duplicate, entries and strings use separate indexes, other blocks pass through (Library._add_to_dicts, _cast_to_duplicate, add: one block appended per argument at its own position, the class invariant of C08 kept); both duplicate wrappers keep what they were given (constructors). Bounded (native, labelled): the number of returned blocks equals the number of source blocks for grammar-derived documents (needs the grammar lemma), the splitter's duplicate-field tracking end to end.",
         "level_note": STD_NOTE + "; A-EQ (Block.__eq__ structural) assumed in Library.add; sorted()/set-to-list as assumed builtin contracts.",
-        "modules": ["schema", "library", "model"],
+        "modules": ["schema", "library", "model", "splitter"],
         "functions": [LB + "_cast_to_duplicate", LB + "_add_to_dicts", LB + "add#single", LB + "add#list",
-                      "bibtexparser.model.DuplicateFieldKeyBlock.__init__", "bibtexparser.model.DuplicateBlockKeyBlock.__init__"],
+                      "bibtexparser.model.DuplicateFieldKeyBlock.__init__", "bibtexparser.model.DuplicateBlockKeyBlock.__init__",
+                      SP + "_move_to_end_of_entry", SP + "_handle_entry"],
+        "lemmas": ["nls-run"],
+        "assumption_checks": ["A-RE"],
         "native": "p09",
         "explanation": "proved: first-wins insertion with complete duplicate wrappers, separate indexes, wrapper constructors; bounded: block counts and duplicate-field tracking on grammar-derived documents",
     },
